@@ -154,6 +154,8 @@ def main(argv=None):
     refuted = [r for r in results if r["status"] == "refuted"]
     unknown = [r for r in results if r["status"] == "unknown"]
     err_obl = [r for r in results if r["status"] == "error"]
+    skipped = [r for r in results if r["status"] == "skipped"]
+    results = [r for r in results if r["status"] != "skipped"]
     violations, known_hit = [], []
     for r in refuted:
         k = match_known(known, prop, r)
@@ -191,6 +193,7 @@ def main(argv=None):
             "refuted_known": len(known_hit),
             "refuted_new": len(violations),
             "undecided": len(unknown),
+            "skipped_after_refutation_of_same_clause": len(skipped),
             "engine_errors": len(err_obl) + len(errors),
             "checker_cmd": "./check %s --tier %s" % (prop, a.tier),
             "trusted_base": [
